@@ -170,7 +170,9 @@ where
         Ok(Self {
             reader,
             max_lit: header.max_var_index * 2 + 1,
-            code: (header.input_count + 1) * 2,
+            // This can only overflow when all variables are inputs, in which case there are no
+            // latches or and gates that would use it.
+            code: (header.input_count + 1).saturating_mul(2),
             header,
             _lit_builder: std::marker::PhantomData,
         })
